@@ -7,6 +7,7 @@ open Proto LLH
       comp <opa> <N> <ns> <zb> <s> <b> <r2>       -> same, for R_i = ratioSOB zb s_i b_i * r2_i
       sob  <zb> <s> <b>                           -> ratios
       lam  <opa> <alpha_i>                        -> log Λ_i, stable?(1/0)
+      counts <n_events arg | -> <raw events> <selected events>   -> N N' N-N'
 -/
 def sumAbs (opa : Float) (N : Nat) (ns : Float) (Rs : List Float) : Float :=
   (Rs.map (fun R => (logLambdaI opa ns (xOfRatio N R)).abs)).foldl (· + ·) 0
@@ -24,6 +25,10 @@ def answer (line : String) : String :=
   | ["sob", zb, s, b] => fListD fF (List.zipWith (ratioSOB (pF zb)) (pList pF s) (pList pF b))
   | ["lam", opa, a] =>
       s!"{fF (lamOfAlpha (pF opa) (pF a))} {fB (decide (pF opa - 1 < pF a))}"
+  | ["counts", narg, nraw, nsel] =>
+      let a : Option Nat := if narg == "-" then none else some (pN narg)
+      let c := trialCounts a (pN nraw) (pN nsel)
+      s!"{c.1} {c.2.1} {c.2.2}"
   | _ => "bad-op"
 
 def main : IO Unit := do loop (← IO.getStdin) answer
